@@ -69,6 +69,7 @@ func main() {
 		}
 	}
 	extractMapRanges(pkgs, genDir)
+	extractGuards(pkgs, genDir)
 	extractLifecycles(pkgs, genDir)
 	sort.Slice(facts.Broken, func(i, j int) bool { return facts.Broken[i]["name"] < facts.Broken[j]["name"] })
 	b, _ := json.MarshalIndent(facts, "", " ")
